@@ -27,6 +27,7 @@ import (
 	xmlimp "github.com/sdcio/data-server/pkg/tree/importer/xml"
 	"github.com/sdcio/data-server/pkg/utils"
 	sdcpb "github.com/sdcio/sdc-protos/sdcpb"
+	"google.golang.org/protobuf/proto"
 	"google.golang.org/protobuf/types/known/anypb"
 
 	"verifharness/dev"
@@ -124,6 +125,9 @@ type ShapeRunner struct {
 	W   *env.World
 	Out io.Writer
 	N   int
+	// the second update / path of the compound shape being run (nil otherwise)
+	comp       *sdcpb.Path
+	compBefore bool
 }
 
 type sElem struct {
@@ -268,8 +272,58 @@ func bend(p []sElem, pathShape, keyShape string) ([]sElem, string) {
 		if len(out) > 0 {
 			out = append(out, out[len(out)-1])
 		}
+	case "plus_keyless_before", "plus_keyless_after":
+		// the entry's key values are the name of a leaf of the list (see companionOf)
+		if last >= 0 {
+			if leaf := leafOfList[out[last].name]; leaf != "" {
+				for i := range out[last].keys {
+					out[last].keys[i][1] = leaf
+				}
+			}
+		}
 	}
 	return out, origin
+}
+
+// a leaf below each list of the verification schema
+var leafOfList = map[string]string{"item": "val", "pair": "weight", "triple": "v"}
+
+// companionOf: the second update / path of a compound path shape: the same path again ("twice") or the key-less
+// path to a leaf of the last list of the path, whose name the entry's key values carry.
+func companionOf(bent []sElem, origin, pathShape string) (p *sdcpb.Path, before bool) {
+	switch pathShape {
+	case "twice":
+		return toPath(bent, origin), false
+	case "plus_keyless_before", "plus_keyless_after":
+		last := -1
+		for i := range bent {
+			if len(bent[i].keys) > 0 {
+				last = i
+			}
+		}
+		if last < 0 || leafOfList[bent[last].name] == "" {
+			return nil, false
+		}
+		c := append([]sElem(nil), bent[:last]...)
+		c = append(c, sElem{name: bent[last].name}, sElem{name: leafOfList[bent[last].name]})
+		return toPath(c, origin), pathShape == "plus_keyless_before"
+	}
+	return nil, false
+}
+
+// withCompanion orders the main update and the companion (same kind of value on both)
+func withCompanion(main *sdcpb.Update, comp *sdcpb.Path, before bool) []*sdcpb.Update {
+	if comp == nil {
+		return []*sdcpb.Update{main}
+	}
+	c := &sdcpb.Update{Path: comp, Value: &sdcpb.TypedValue{Value: &sdcpb.TypedValue_StringVal{StringVal: "x"}}}
+	if proto.Equal(comp, main.GetPath()) {
+		c.Value = main.GetValue()
+	}
+	if before {
+		return []*sdcpb.Update{c, main}
+	}
+	return []*sdcpb.Update{main, c}
 }
 
 func toPath(p []sElem, origin string) *sdcpb.Path {
@@ -600,6 +654,10 @@ func (r *ShapeRunner) Run(b *ShapeBatch) error {
 		entry, node, pshape, kshape, vkind := s[0], s[1], s[2], s[3], s[4]
 		bent, origin := bend(basePath(node), pshape, kshape)
 		path := toPath(bent, origin)
+		if pshape == "absent" {
+			path = nil
+		}
+		r.comp, r.compBefore = companionOf(bent, origin, pshape)
 		done := make(chan res, 1)
 		t0 := time.Now()
 		go func() {
@@ -639,6 +697,10 @@ func (r *ShapeRunner) Run(b *ShapeBatch) error {
 		if err := r.write(ev); err != nil {
 			return err
 		}
+		if strings.HasPrefix(ev.Detail, "cancel: ") {
+			// the applied transaction could not be cancelled and stays open until it expires: start over
+			return fmt.Errorf("transaction left open at %s %d", b.ID, i)
+		}
 		if ev.Outcome == "hang" {
 			// the goroutine may still hold locks of this datastore: start over with a fresh one
 			return fmt.Errorf("hang at %s %d", b.ID, i)
@@ -663,7 +725,7 @@ func (r *ShapeRunner) callShape(cctx, ctx context.Context, ds *env.DS, scb *sche
 	}
 	switch entry {
 	case "set_dry", "set_apply":
-		req := &sdcpb.TransactionIntent{Intent: "s", Priority: 10, Update: []*sdcpb.Update{{Path: path, Value: valueOf(vkind)}}}
+		req := &sdcpb.TransactionIntent{Intent: "s", Priority: 10, Update: withCompanion(&sdcpb.Update{Path: path, Value: valueOf(vkind)}, r.comp, r.compBefore)}
 		ti, err := ds.D.SdcpbTransactionIntentToInternalTI(cctx, req)
 		if err != nil {
 			return errOut(err)
@@ -685,6 +747,9 @@ func (r *ShapeRunner) callShape(cctx, ctx context.Context, ds *env.DS, scb *sche
 		for _, which := range []sdcpb.Type{sdcpb.Type_MAIN, sdcpb.Type_INTENDED} {
 			for _, enc := range []sdcpb.Encoding{sdcpb.Encoding_STRING, sdcpb.Encoding_PROTO, sdcpb.Encoding_JSON, sdcpb.Encoding_JSON_IETF} {
 				req := &sdcpb.GetDataRequest{Name: ds.Name, Datastore: &sdcpb.DataStore{Type: which}, DataType: sdcpb.DataType_ALL, Encoding: enc, Path: []*sdcpb.Path{path}}
+				if r.comp != nil {
+					req.Path = append(req.Path, r.comp)
+				}
 				nCh := make(chan *sdcpb.GetDataResponse)
 				errCh := make(chan error, 1)
 				go func() {
@@ -710,7 +775,7 @@ func (r *ShapeRunner) callShape(cctx, ctx context.Context, ds *env.DS, scb *sche
 		}
 		return errOut(firstErr)
 	case "sync":
-		n := &sdcpb.Notification{Timestamp: time.Now().UnixNano(), Update: []*sdcpb.Update{{Path: path, Value: valueOf(vkind)}}}
+		n := &sdcpb.Notification{Timestamp: time.Now().UnixNano(), Update: withCompanion(&sdcpb.Update{Path: path, Value: valueOf(vkind)}, r.comp, r.compBefore)}
 		select {
 		case syncIn <- &target.SyncUpdate{Update: n}:
 		case <-cctx.Done():
